@@ -71,6 +71,17 @@ CHECKS.update({
    SVM + " Only rejection by some layer is required (a constraint duplicated by the token program cannot be isolated by outcome).", "DESIGN.md §3 C15"),
 })
 
+CHECKS.update({
+ "C04": (A, "fault_enumeration",
+   "complete fault matrix on the real program: every privileged instruction (table checked against lib.rs and the compiled dispatcher) x every wrong-signer / missing-signature / delegate-amount / token-account-state variant",
+   "All 50 privileged instructions (18 position-token, 32 stored-authority; Anchor- and Pinocchio-dispatched; SPL and Token-2022 flavours; fresh/funded/emptied/locked/bundled states): the instruction succeeds only if the holder, its exactly-one-token delegate or the stored authority signed; every other variant fails and leaves the ledger byte-identical.",
+   SVM + " The 16 instructions classified as not privileged are listed with reasons in the evidence; an unclassified instruction fails the run.", "DESIGN.md §3 C04"),
+ "C18": (A, "model_checking",
+   "explicit-state search against a reference lifecycle machine (enabledness + post-conditions on every transition, ledger == machine in every state) + exhaustive bundle indexes, range-validation and one-sided-bound tables",
+   "All sequences up to the completed depth of open (4 kinds, valid/invalid/sentinel ranges) / increase / decrease / swap-to-earn / update / collect / close / reset / lock / transfer-locked / reposition / bundle ops on ordinary, Token-2022 and bundled positions agree with the lifecycle machine; all 256 bundle indexes; range validation and one-sided bound resolution against brute force (Anchor and Pinocchio).",
+   SVM + " Metaplex metadata CPI is a recording stub (DESIGN §7).", "DESIGN.md §3 C18"),
+})
+
 NOT_APPLICABLE = {
 }
 PENDING_REASON = "check not built yet (build in progress; see DESIGN.md §8)"
